@@ -176,7 +176,7 @@ Section Chk.
 
   (* ---------------------------------------------------------------------------------------------- *)
   Definition rule_env_okb (a : ident) (pd : pred_decl) (re : ident) : bool :=
-    value_is_ref (own sol re id_this) a && extends sol re a && chk_list (pd_body pd) re.
+    value_is_ref (own sol re id_this) a && chk_list (pd_body pd) re.
 
   Definition goal_rules_okb (ar : atom_rec) : bool :=
     match rule_chain pfuel prog (a_pred ar) with
